@@ -35,6 +35,9 @@ func (x *Exec) execInstr(st *State, ins ssa.Instruction) {
 		p := x.deref(addr)
 		x.nilCheck(st, ins, "nilstore", addr, p)
 		x.frameStore(st, p, ins.Pos(), fmt.Sprintf("store@%d", x.ordinals[ins]))
+		if p.Kind != pLocal {
+			st.escape(val)
+		}
 		x.store(st, p, coerce(val, p.Sub))
 	case *ssa.UnOp:
 		st.regs[i] = x.doUnOp(st, i)
@@ -101,6 +104,9 @@ func (x *Exec) execInstr(st *State, ins ssa.Instruction) {
 		st.regs[i] = scalar(i.Type(), x.allocRef(st, "chan"))
 	case *ssa.MakeClosure:
 		r := x.allocRef(st, "closure")
+		for _, b := range i.Bindings {
+			st.escape(x.operand(st, b))
+		}
 		st.regs[i] = scalar(i.Type(), r)
 		// captured variables may be modified by the closure whenever it runs: remember bindings
 		x.ck.closureOf[r.S] = i
@@ -177,6 +183,10 @@ func (x *Exec) allocRef(st *State, hint string) Term {
 	st.assume(mkCmp(">", r, st.top))
 	st.top = r
 	st.allocs = append(st.allocs, r)
+	if st.private == nil {
+		st.private = map[string]bool{}
+	}
+	st.private[r.S] = true
 	return r
 }
 
@@ -580,6 +590,7 @@ func (x *Exec) boxFn(t types.Type) (string, []Leaf) {
 
 func (x *Exec) doMakeInterface(st *State, m *ssa.MakeInterface) Value {
 	v := x.operand(st, m.X)
+	st.escape(v)
 	return x.makeIface(st, m.Type(), v, m.X.Type())
 }
 
@@ -863,6 +874,7 @@ func (x *Exec) doMapUpdate(st *State, u *ssa.MapUpdate) {
 	m := x.operand(st, u.Map)
 	k := x.operand(st, u.Key).one()
 	v := x.operand(st, u.Value)
+	st.escape(v)
 	mt := m.T.Underlying().(*types.Map)
 	x.safety(st, "nilmap", u, mkNot(mkEq(m.one(), tZero)), "assignment to entry in nil map")
 	if x.framed() {
